@@ -308,7 +308,8 @@ fn print_intent(spec: &CmdSpec, il: &IntentLine) -> Option<Printed> {
             if chars.len() < 4 {
                 return None;
             }
-            let n = 3 + (*cut as usize % (chars.len() - 3));
+            // (up to and including the whole spelling: an exact match still has to offer what extends it)
+            let n = 3 + (*cut as usize % (chars.len() - 2));
             chars[..n].iter().collect()
         }
         Word::ShortCluster(picks) => {
@@ -347,7 +348,7 @@ fn print_intent(spec: &CmdSpec, il: &IntentLine) -> Option<Printed> {
             if chars.len() < 2 {
                 return None;
             }
-            let k = 1 + (*cut as usize % (chars.len() - 1));
+            let k = 1 + (*cut as usize % chars.len());
             chars[..k].iter().collect()
         }
     };
@@ -608,6 +609,30 @@ impl Engine for CompSim {
                 spec = before;
             }
         }
+        // a long spelling that extends another long of the same level, and a hidden alias of one subcommand
+        // that extends the name of a visible sibling
+        fn lookalikes(rng: &mut Rng, c: &mut CmdSpec) {
+            let longs: Vec<usize> = c.args.iter().enumerate().filter(|(_, a)| !a.is_positional() && a.long.is_some() && !a.hide).map(|(i, _)| i).collect();
+            if longs.len() >= 2 && rng.coin() {
+                let base = c.args[longs[0]].long.clone().unwrap();
+                c.args[longs[1]].long = Some(format!("{base}-mode"));
+            }
+            let vis: Vec<usize> = c.subs.iter().enumerate().filter(|(_, s)| !s.has(CmdSetting::Hide)).map(|(i, _)| i).collect();
+            if vis.len() >= 2 && rng.coin() {
+                let other = c.subs[vis[1]].name.clone();
+                c.subs[vis[0]].aliases.push(format!("{other}-b"));
+            }
+            for s in c.subs.iter_mut() {
+                lookalikes(rng, s);
+            }
+        }
+        if rng.chance(1, 3) {
+            let before = spec.clone();
+            lookalikes(rng, &mut spec);
+            if gate(&spec).is_err() {
+                spec = before;
+            }
+        }
         let n_ops = rng.urange(1, 8);
         let mut ops = Vec::new();
         // a third of the histories start with a parse (the command is then partly built when the engine sees it)
@@ -823,6 +848,11 @@ fn exec_ops(sc: &CompSc, scratch: Option<&Scratch>, log: &mut Log, out: &mut Out
                     }
                     Ok(Err(e)) => {
                         ev!(log, "{i} complete {:?}@{index} -> Err({e})", args);
+                        // "(or a plain 'no completion' error)": the one error the engine has for "nothing here"
+                        if e.kind() != std::io::ErrorKind::Other || e.to_string() != "no completion generated" {
+                            out.violate("not-the-plain-no-completion-error", format!("{:?}", e.kind()), format!("op {i}: complete({:?}, index {index}) failed with {:?} / {e:?}, not with the plain `no completion generated` error", args, e.kind()));
+                            return;
+                        }
                         None
                     }
                     Ok(Ok(l)) => {
@@ -1084,6 +1114,22 @@ fn check_intent(sc: &CompSc, line: &Line, p: &Printed, list: &[CompletionCandida
                 }
                 if first.contains(&format!("'{v}'")) {
                     return Some(("candidate-rejected-by-parser", id.split("::").next().unwrap_or("").to_string(), format!("the parser answers {kind:?} for {:?}: {}", argv, rendered.lines().next().unwrap_or(""))));
+                }
+            }
+        }
+    }
+    // a hidden spelling (hidden alias) of a visible item is offered only when no visible spelling matches
+    let offered_visible_spelling = list.iter().any(|c| {
+        let v = c.get_value().to_string_lossy().to_string();
+        ents.iter().any(|e| !e.hidden && e.visible.iter().any(|s| *s == v))
+    });
+    if offered_visible_spelling {
+        for c in list {
+            let Some(id) = c.get_id() else { continue };
+            let v = c.get_value().to_string_lossy().to_string();
+            if let Some(e) = ents.iter().find(|e| e.id == *id) {
+                if !e.hidden && e.all.iter().any(|s| *s == v) && !e.visible.iter().any(|s| *s == v) {
+                    return Some(("hidden-offered-with-visible", "hidden-alias".into(), format!("the hidden spelling {v:?} of {id} is offered although visible spellings match")));
                 }
             }
         }
